@@ -665,7 +665,7 @@ func c05Mutex(c *Ctx, m *Module, fns []*ssa.Function) {
 				continue
 			}
 			n++
-			mu := describe(argsOf(cs)[0])
+			mu := describeArg(cs, 0)
 			unlockName := strings.Replace(strings.Replace(calleeName(cs.Common()), ".Lock", ".Unlock", 1), ".RLock", ".RUnlock", 1)
 			isUnlock := func(in ssa.Instruction) bool {
 				cc := callOf(in)
